@@ -85,9 +85,8 @@ pub fn check_dur(rep: &mut Rep, c: i128) {
                     rep.fail("subdivision/value", None, || format!("{}.subdivision({:?}) = {:?} want {}", fmt_parts(p), u, v[i], *val as i128 * f));
                 }
             }
-            if wk.is_some() || ce.is_some() {
-                rep.fail("subdivision/week-century", None, || format!("{}.subdivision(Week|Century) is Some", fmt_parts(p)));
-            }
+            // subdivision(Week | Century) is documented as None, but no property statement says so: not judged
+            let _ = (wk, ce);
         }
     }
     // Display, parse(Display), serde
@@ -149,6 +148,12 @@ pub fn check_dur(rep: &mut Rep, c: i128) {
 }
 
 pub fn check_text(rep: &mut Rep, s: &str, want: i128, class: &str) {
+    check_text_tol(rep, s, want, class, None)
+}
+
+/// `alt` = (exact value denoted by the decimal text in ns as a rational num/den): for fractional values the statement says
+/// "the value they denote", the rustdoc shows the float product; both readings (they differ by at most 1 ns) are accepted.
+pub fn check_text_tol(rep: &mut Rep, s: &str, want: i128, class: &str, alt: Option<(i128, i128)>) {
     if !rep.tick() {
         return;
     }
@@ -159,11 +164,26 @@ pub fn check_text(rep: &mut Rep, s: &str, want: i128, class: &str) {
         Err(e) => rep.fail(&format!("parse-text/panic/{}", e.class()), None, || format!("from_str({:?}) panicked: {} at {}", s, e.msg, e.loc)),
         Ok(Err(e)) => rep.fail(&format!("parse-text/err/{class}"), None, || format!("from_str({:?}) = Err({:?}), want count {}", s, e, want)),
         Ok(Ok(g)) => {
-            if count_d(g) != clamp(want) || !is_canonical(g.to_parts()) {
+            let alt_ok = match alt {
+                Some((num, den)) => {
+                    // |got - num/den| <= 1  <=>  |got*den - num| <= den
+                    (count_d(g) * den - num).abs() <= den
+                }
+                None => false,
+            };
+            if (count_d(g) != clamp(want) && !alt_ok) || !is_canonical(g.to_parts()) {
                 rep.fail(&format!("parse-text/value/{class}"), None, || format!("from_str({:?}) = {} (count {}), want count {}", s, fmt_parts(g.to_parts()), count_d(g), want));
             }
         }
     }
+}
+
+/// exact value of a decimal literal "a.b" times unit_ns, as a rational
+fn decimal_times(v: &str, unit_ns: i128) -> Option<(i128, i128)> {
+    let (a, b) = v.split_once('.')?;
+    let den = 10i128.checked_pow(b.len() as u32)?;
+    let num = (a.parse::<i128>().ok()? * den + b.parse::<i128>().ok()?) * unit_ns;
+    Some((num, den))
 }
 
 fn spelling_cases(rep: &mut Rep, r: &mut Rng, exhaustive: bool) {
@@ -183,10 +203,11 @@ fn spelling_cases(rep: &mut Rep, r: &mut Rng, exhaustive: bool) {
             let x: f64 = v.parse().unwrap();
             let w = model_in(x, *u).unwrap();
             let cls = if sp.len() != sp.chars().count() { "text/micro-sign" } else if v.contains('.') { "text/fractional" } else { "text/spelling" };
-            check_text(rep, &format!("{v} {sp}"), w, cls);
-            check_text(rep, &format!("-{v} {sp}"), -w, cls);
+            let alt = decimal_times(&v, unit_ns(*u));
+            check_text_tol(rep, &format!("{v} {sp}"), w, cls, alt);
+            check_text_tol(rep, &format!("-{v} {sp}"), -w, cls, alt.map(|(n, d)| (-n, d)));
             if exhaustive {
-                check_text(rep, &format!("  {v} {sp} "), w, cls);
+                check_text_tol(rep, &format!("  {v} {sp} "), w, cls, alt);
             }
         }
     }
